@@ -228,6 +228,7 @@ func C07(p *core.Program, r *core.Report) {
 	checkFragmentIdentity(p, r)
 	checkHandOverConfirmed(p, r)
 	checkRestClientLifeCycle(p, r)
+	checkAgentSocketWritesBounded(p, r)
 }
 
 // checkHandOverConfirmed: AgentManager.Deliver releases the bundle (removes LocalEndpoint, returns nil, which makes
@@ -809,4 +810,38 @@ func checkRestClientLifeCycle(p *core.Program, r *core.Report) {
 	})
 	r.Min("responses written by handleFetch", 1)
 	r.Count("responses written by handleFetch", nEnc)
+}
+
+// checkAgentSocketWritesBounded (audit 4): the WebSocket agent writes to a client's socket while the MuxAgent above it
+// holds its lock for the fan-out (and every caller of MuxAgent.Endpoints, i.e. every dispatching, waits for that lock).
+// A peer that stops reading must not block the write for ever: every NextWriter / WriteMessage of the server side of
+// the agent (functions reachable from the daemon) is preceded, in the same function, by SetWriteDeadline on the same
+// connection.
+func checkAgentSocketWritesBounded(p *core.Program, r *core.Report) {
+	reach := p.DaemonReachable()
+	n := 0
+	for _, fn := range p.RepoFuncs() {
+		if fn.Pkg != p.Pkg(agentPkg) || fn.Blocks == nil || !reach[topFunc(fn)] {
+			continue
+		}
+		core.EachInstr(fn, func(in ssa.Instruction) {
+			c, ok := in.(*ssa.Call)
+			if !ok {
+				return
+			}
+			switch core.CalleeName(c) {
+			case "github.com/gorilla/websocket.Conn.NextWriter", "github.com/gorilla/websocket.Conn.WriteMessage", "github.com/gorilla/websocket.Conn.WriteJSON":
+			default:
+				return
+			}
+			n++
+			bounded := core.MustPassBefore(c, func(i ssa.Instruction) bool {
+				d, ok := i.(*ssa.Call)
+				return ok && core.CalleeName(d) == "github.com/gorilla/websocket.Conn.SetWriteDeadline" && core.SameExpr(core.CallRecv(d), core.CallRecv(c))
+			})
+			r.Check(bounded, "agent-socket/"+fname(fn)+"/write-has-a-deadline", "a write to a WebSocket client is bounded by a write deadline set on the same connection before it", p.Pos(c.Pos()), "", "the write can block for ever on a client that stopped reading; the MuxAgent delivering holds its lock meanwhile, no other agent gets a bundle and MuxAgent.Endpoints (asked for every dispatched bundle) never returns")
+		})
+	}
+	r.Min("WebSocket writes of the agents reachable from the daemon", 1)
+	r.Count("WebSocket writes of the agents reachable from the daemon", n)
 }
